@@ -48,6 +48,10 @@ theorem tie_fromGeoJSON (ty : String) (c : Tree F) : Gen.fromGeoJSON ty c = from
     tie_decodeCoordinates3, tie_decodeCoordinates4, tie_makeLinearRing, tie_makeLinearRings]
   rfl
 
+/-- geojson.go's two `Error()` methods as regenerated from the source are the model's texts -/
+theorem tie_errorTexts : Gen.invalidGeometryErrorText = invalidGeometryErrorText ∧
+    Gen.unsupportedGeometryErrorText = unsupportedGeometryErrorText := ⟨rfl, rfl⟩
+
 /-- `Encode` / `Decode` composed from the regenerated pieces -/
 def toTreeSrc (fin : F → Bool) (g : Geom F) : Except Err (Tree F) := do
   let o ← Gen.toGeoJSON g
